@@ -1,6 +1,284 @@
 import Fabio.Driver.Proto
-namespace Fabio.Driver.C14
-open Lean Fabio.Driver
+import Fabio.Driver.RouteJson
+import Fabio.Model.Route
+import Fabio.Model.Parse
+import Fabio.Model.C14
+/-!
+Driver handlers for C14. `agree` compares the model (`Model/C14.lean` on top of `Model/Parse.lean` and
+`Model/Route.lean`) with the real `routecmd.build` / `parseURLPrefixTag` / `makeConfig` + `NewTable`; `spec`
+evaluates the property on the implementation's own output:
 
-def streams : List (String × Handler) := []
+* `c14.build`: every emitted command, fed to the **real** `route.Parse` / `route.NewTable` on the Go side, came
+  back as exactly one `route add` that a table accepts; the definitions are, in order, those the registration
+  means (service, source, destination, weight, tags, options); no routing tag that fits the grammar
+  (`expressibleB`) lost its command.
+* `c14.poison`: the real table built from the joined text of all services holds every route of every
+  registration that fits the grammar, and nothing that no registration asked for.
+-/
+namespace Fabio.Driver.C14
+open Lean Fabio.Driver Fabio.Driver.RouteJson Fabio.Model.Route Fabio.Model.Parse Fabio.Model.C14
+
+def objOr (j : Json) (k : String) : Json := (j.getObjVal? k).toOption.getD (Json.mkObj [])
+
+def oracleOf (inp impl : Json) : Json :=
+  match impl.getObjVal? "oracle" with
+  | .ok o => o
+  | .error _ => objOr inp "oracle"
+
+def pfOf (o : Json) : ParseFloat :=
+  let p := objOr o "pf"
+  fun s => match p.getObjVal? (String.ofList s) with
+    | .ok (.str "nan") => some .nan
+    | .ok (.str "inf") => some .posInf
+    | .ok (.str "-inf") => some .negInf
+    | .ok (.str r) => (parseRat r).map .fin
+    | _ => none
+
+def regOf (j : Json) : Except String Reg := do
+  let tags ← strList ((j.getObjVal? "tags").toOption.getD .null)
+  let port := (j.getObjValAs? Int "port").toOption.getD 0
+  return { name := getStrD j "name", svcAddr := getStrD j "addr", nodeAddr := getStrD j "node", port, tags }
+
+def cfgOf (inp : Json) : Cfg :=
+  { pfx := getStrD inp "prefix", env := [("DC".toList, getStrD inp "dc")] }
+
+def errName : Err → String
+  | .invalidPrefix => "invalidPrefix" | .invalidTarget => "invalidTarget" | .badURL => "badURL"
+  | .badGlob => "badGlob" | .noMatch => "noMatch" | .invalidCommand => "invalidCommand"
+
+def synName : SynErr → String
+  | .routeExpected => "routeExpected" | .addInvalid => "addInvalid" | .delInvalid => "delInvalid"
+  | .weightInvalid => "weightInvalid" | .weightValue => "weightValue"
+
+def parseErrJson : ParseErr → Json
+  | .syn l e => Json.mkObj [("kind", "syn"), ("line", l), ("what", synName e)]
+  | .tooLong l => Json.mkObj [("kind", "tooLong"), ("line", l)]
+  | .nonFinite l _ => Json.mkObj [("kind", "nonFinite"), ("line", l)]
+
+def loadJson : Except LoadErr Table → Json
+  | .error (.parse e) => Json.mkObj [("error", parseErrJson e)]
+  | .error (.table e) => Json.mkObj [("error", Json.mkObj [("kind", "table"), ("what", errName e)])]
+  | .ok t => Json.mkObj [("table", tableJson t)]
+
+def strArr (l : List Str) : Json := Json.arr (l.map str).toArray
+
+/-! ### decoding the implementation's observables -/
+
+def targetOfJson (j : Json) : Except String Target := do
+  let tags ← strList (objOr j "tags")
+  let opts ← pairList ((j.getObjVal? "opts").toOption.getD .null)
+  let fixed ← getRat j "fixed"
+  let weight ← getRat j "weight"
+  return { service := getStrD j "service", tags, opts, url := getStrD j "url", fixedWeight := fixed, weight }
+
+def tableOfJson (j : Json) : Except String Table := do
+  let hs ← j.getArr?
+  hs.toList.mapM (fun h => do
+    let rs ← h.getObjValAs? (Array Json) "routes"
+    let rs ← rs.toList.mapM (fun r => do
+      let ts ← r.getObjValAs? (Array Json) "targets"
+      let ts ← ts.toList.mapM targetOfJson
+      return ({ host := getStrD r "host", path := getStrD r "path", targets := ts } : Route))
+    return (getStrD h "host", rs))
+
+def errWhat (e : Json) : String :=
+  let kind := (e.getObjValAs? String "kind").toOption.getD "?"
+  match e.getObjValAs? String "what" with
+  | .ok w => w
+  | .error _ => kind
+
+/-- what the real parser and a fresh table made of one emitted command -/
+inductive CmdRead where
+  | one (d : RouteDef)
+  | many (n : Nat)
+  | parseErr (what : String)
+  | tableErr (what : String)
+  | panic
+  | weird (why : String)
+
+def cmdRead (p : Json) : CmdRead :=
+  let tab := objOr p "table"
+  if (tab.getObjVal? "panic").toOption.isSome then .panic else
+  match p.getObjVal? "error" with
+  | .ok e => .parseErr (errWhat e)
+  | .error _ =>
+    match p.getObjValAs? (Array Json) "defs" with
+    | .error _ => .weird "no defs"
+    | .ok ds =>
+      if ds.size != 1 then .many ds.size else
+      match tab.getObjVal? "error" with
+      | .ok e => .tableErr (errWhat e)
+      | .error _ =>
+        match routeDef ds[0]! with
+        | .ok d => if d.cmd == .add then .one d else .weird "not a route add"
+        | .error e => .weird e
+
+/-! ### c14.build -/
+
+/-- Walk the intents in order against the definitions the real parser read from the emitted commands; `none`
+when a definition is not the one meant by the next intents, else the intents that got no command. -/
+def matchEmitted (pf : ParseFloat) : List Intent → List RouteDef → Option (List Intent)
+  | is, [] => some is
+  | [], _ :: _ => none
+  | i :: is, d :: ds =>
+    if wantDef pf i == some d then matchEmitted pf is ds
+    else (matchEmitted pf is (d :: ds)).map (i :: ·)
+
+/-- the first field in which a definition differs from what an intent means -/
+def diffField (pf : ParseFloat) (i : Intent) (d : RouteDef) : String :=
+  if d.service != i.service then "service"
+  else if d.src != i.src then "src"
+  else if d.dst != i.dst then "dst"
+  else if d.tags != i.tags then "tags"
+  else if d.opts != optsOfPairs (i.opts.map splitKV) then "opts"
+  else match parseWeight pf i.weight with
+    | .ok w => if d.weight != w then "weight" else "none"
+    | .error _ => "weight"
+
+def ptagJson (tag : Str) (r : Option (Str × Str)) : Json :=
+  match r with
+  | some (route, opts) => Json.mkObj [("tag", str tag), ("route", str route), ("opts", str opts), ("ok", true)]
+  | none => Json.mkObj [("tag", str tag), ("route", str []), ("opts", str []), ("ok", false)]
+
+def buildH : Handler := fun inp impl => do
+  let reg ← regOf (objOr inp "reg")
+  let c := cfgOf inp
+  let o := oracleOf inp impl
+  let env := envOf o
+  let pf := pfOf o
+  let is := intents c reg
+  let cmds := build env pf c reg
+  let ptags := reg.tags.map (fun t => ptagJson t (parseTag c.pfx c.env t))
+  let m := Json.mkObj [("cmds", strArr cmds), ("ptags", Json.arr ptags.toArray)]
+  let implCmds ← strList ((impl.getObjVal? "cmds").toOption.getD .null)
+  let okCmds := implCmds == cmds
+  let okTags := (impl.getObjVal? "ptags").toOption == some (Json.arr ptags.toArray)
+  -- the property, on the implementation's own output
+  let parsed := ((impl.getObjValAs? (Array Json) "parsed").toOption.getD #[]).toList.map cmdRead
+  let firstBad : Option String := parsed.findSome? (fun r => match r with
+    | .one _ => none
+    | .many n => some s!"cmd-injects:{n}-defs"
+    | .parseErr w => some s!"cmd-rejected:{w}"
+    | .tableErr w => some s!"cmd-table-rejects:{w}"
+    | .panic => some "cmd-panics"
+    | .weird w => some s!"cmd-weird:{w}")
+  let defs := parsed.filterMap (fun r => match r with | .one d => some d | _ => none)
+  let (spec, tag) : Bool × String :=
+    match firstBad with
+    | some t => (false, t)
+    | none =>
+      if parsed.length != implCmds.length then (false, "cmd-without-oracle") else
+      match matchEmitted pf is defs with
+      | none =>
+        let f := if is.length == defs.length then
+            ((is.zip defs).findSome? (fun (i, d) => let f := diffField pf i d; if f == "none" then none else some f)).getD "?"
+          else "count"
+        (false, s!"denotes-other:{f}")
+      | some dropped =>
+        if dropped.any (expressibleB env pf) then (false, "expressible-dropped")
+        else (true, if is.isEmpty then "no-route-tag" else if dropped.isEmpty then "emit-all"
+                    else if defs.isEmpty then "drop-all" else "emit+drop")
+  let tag := if !okTags then tag ++ "/ptag-differs" else if !okCmds then tag ++ "/cmds-differ" else tag
+  let nontrivial := !is.isEmpty && (is.any (fun i => !i.tags.isEmpty || !i.opts.isEmpty || !i.weight.isEmpty) || is.length != defs.length)
+  return ({ model := m, agree := okCmds && okTags, spec, nontrivial, tag } : Verdict).toJson
+
+/-! ### c14.poison -/
+
+def clamp0 (r : Rat) : Rat := if r < 0 then 0 else r
+
+def keyOfSrc (src : Str) : Str × Str := (lowerL (hostpath src).1, (hostpath src).2)
+
+/-- the table holds the target the definition describes (de-duplication ignores options) -/
+def present (env : Env) (t : Table) (d : RouteDef) : Bool :=
+  match env.normURL d.dst with
+  | none => false
+  | some url =>
+    let k := keyOfSrc d.src
+    match t.route k.1 k.2 with
+    | none => false
+    | some r => r.targets.any (fun x => x.service == d.service && x.url == url && x.tags == d.tags &&
+        ratClose x.fixedWeight (clamp0 d.weight))
+
+/-- a target of the table is what some definition asked for -/
+def asked (env : Env) (defs : List RouteDef) (host path : Str) (x : Target) : Bool :=
+  defs.any (fun d => keyOfSrc d.src == (host, path) && x.service == d.service && env.normURL d.dst == some x.url &&
+    x.tags == d.tags && Fabio.Model.Parse.sortOpts x.opts == d.opts && ratClose x.fixedWeight (clamp0 d.weight))
+
+def poisonH : Handler := fun inp impl => do
+  let regsJ := (inp.getObjValAs? (Array Json) "regs").toOption.getD #[]
+  let regs ← regsJ.toList.mapM regOf
+  let c := cfgOf inp
+  let o := oracleOf inp impl
+  let env := envOf o
+  let pf := pfOf o
+  let text := config env pf c regs
+  let res := loadTable env pf text
+  let m := (loadJson res).setObjVal! "text" (str text)
+  let implText := getStrD impl "text"
+  let okText := implText == text
+  let okTable := closeJson (loadJson res) impl
+  -- the property
+  let allIntents := (named regs).flatMap (intents c)
+  let wanted := (allIntents.filter (expressibleB env pf)).filterMap (wantDef pf)
+  let allowed := allIntents.filterMap (wantDef pf)
+  let hostile := allIntents.any (fun i => !expressibleB env pf i)
+  let (spec, tag) : Bool × String :=
+    if (impl.getObjVal? "panic").toOption.isSome then (false, "update-panics") else
+    match impl.getObjVal? "error" with
+    | .ok e => (false, s!"update-lost:{errWhat e}")
+    | .error _ =>
+      match (impl.getObjVal? "table").toOption.map tableOfJson with
+      | some (.ok t) =>
+        if !wanted.all (present env t) then (false, "route-missing")
+        else if !t.all (fun kv => kv.2.all (fun r => r.targets.all (asked env allowed kv.1 r.path))) then (false, "injected-route")
+        else (true, if hostile then "table+inexpressible-dropped" else if t.isEmpty then "empty" else "table")
+      | _ => (false, "no-table")
+  let tag := if !okText then tag ++ "/text-differs" else if !okTable then tag ++ "/table-differs" else tag
+  return ({ model := m, agree := okText && okTable, spec, nontrivial := wanted.length ≥ 1 && (hostile || wanted.length ≥ 2), tag } : Verdict).toJson
+
+/-! ### c14.expand, c14.quote -/
+
+def expandH : Handler := fun inp impl => do
+  let s := getStrD inp "s"
+  let c := cfgOf inp
+  let ex := expand (envLookup c.env) s
+  let tg := ptagJson (c.pfx ++ s) (parseTag c.pfx c.env (c.pfx ++ s))
+  let m := Json.mkObj [("expand", str ex), ("tag", tg)]
+  let okE := getStrD impl "expand" == ex
+  let okT := (impl.getObjVal? "tag").toOption == some tg
+  let tag := (if s.contains '$' then (if s.contains '{' then "braced" else "plain") else "no-dollar") ++
+    (if !okE then "/expand-differs" else if !okT then "/tag-differs" else "")
+  return ({ model := m, agree := okE && okT, spec := true, nontrivial := s.contains '$', tag } : Verdict).toJson
+
+def hexVal (c : Char) : Nat :=
+  if '0' ≤ c && c ≤ '9' then c.toNat - 48 else if 'a' ≤ c && c ≤ 'f' then c.toNat - 87 else if 'A' ≤ c && c ≤ 'F' then c.toNat - 55 else 0
+
+def unhex : List Char → List UInt8
+  | a :: b :: rest => UInt8.ofNat (hexVal a * 16 + hexVal b) :: unhex rest
+  | _ => []
+
+def quoteH : Handler := fun inp impl => do
+  let bs := unhex (getStrD inp "hex")
+  let pr := objOr impl "print"
+  let printHi : Char → Bool := fun c => match pr.getObjVal? (toString c.toNat) with
+    | .ok (.bool b) => b
+    | _ => false
+  let q := quoteBytes printHi bs
+  let implQ := getStrD impl "quoted"
+  let valid := (impl.getObjValAs? Bool "valid").toOption.getD false
+  -- on valid UTF-8 the character-level model (the one `renderQ` uses) must agree too
+  let chars : Option Str := (String.fromUTF8? (ByteArray.mk bs.toArray)).map (·.toList)
+  let okChars := !valid || (match chars with
+    | some s => quote printHi s == implQ
+    | none => false)
+  let okB := q == implQ
+  let escapes := match chars with
+    | some s => implQ != ['"'] ++ s ++ ['"']
+    | none => true
+  let tag := (if !valid then "invalid-utf8" else if escapes then "escapes" else "plain") ++
+    (if !okB then "/bytes-differ" else if !okChars then "/chars-differ" else "")
+  return ({ model := str q, agree := okB && okChars, spec := true, nontrivial := escapes, tag } : Verdict).toJson
+
+def streams : List (String × Handler) :=
+  [("c14.build", buildH), ("c14.poison", poisonH), ("c14.expand", expandH), ("c14.quote", quoteH)]
 end Fabio.Driver.C14
